@@ -213,6 +213,24 @@ func main() {
 			e.Strs("storeFetchReqBuilders", builders, "proxy/search/ingestor.go: functions that construct a storeapi.FetchRequest")
 			e.Strs("storeFetchCallArgs", fetchArgs, "proxy/search/ingestor.go: the request argument of every store client Fetch call")
 		}
+		// ---- the proxy re-parses the whole query with a nil mapping (every field is a keyword field) and a parse error
+		// means "no filter": the keyword literal parser must therefore accept whatever the store-side parse accepted
+		if h, err := r.Load("parser/seqql_filter.go"); err != nil {
+			e.Missing("seqql_filter.go", err)
+		} else if fd := h.Func("", "parseSeqQLKeyword"); fd == nil {
+			e.Missing("keywordLiteralErrors", "parseSeqQLKeyword not found")
+		} else {
+			errs := []string{}
+			ast.Inspect(fd.Body, func(n ast.Node) bool {
+				if rs, ok := n.(*ast.ReturnStmt); ok && len(rs.Results) == 2 {
+					if t := h.Render(rs.Results[1]); t != "nil" {
+						errs = append(errs, h.Render(rs))
+					}
+				}
+				return true
+			})
+			e.Strs("keywordLiteralErrors", errs, "parser.parseSeqQLKeyword: return statements that carry an error")
+		}
 		// ---- keyword recognition of the pipe parser: case-insensitive, never a quoted token
 		if h, err := r.Load("parser/seqql_pipes.go"); err != nil {
 			e.Missing("seqql_pipes.go", err)
@@ -262,5 +280,5 @@ func main() {
 				e.Strs(fn.lean, stmts, "parser.lexer."+fn.name+": statements")
 			}
 		}
-	}, "storeapi/grpc_fetch.go", "proxy/search/ingestor.go", "parser/seqql_pipes.go", "parser/seqql.go", "proxyapi/grpc_fetch.go")
+	}, "storeapi/grpc_fetch.go", "proxy/search/ingestor.go", "parser/seqql_pipes.go", "parser/seqql.go", "parser/seqql_filter.go", "proxyapi/grpc_fetch.go")
 }
